@@ -3,6 +3,6 @@
 cd "$(dirname "$0")/.." || exit 2
 tier="${1:-quick}"; jobs="${2:-4}"
 export PATH=/opt/veriftools/go1.26.8/bin:$PATH GOTOOLCHAIN=local GOFLAGS=-mod=mod GOPROXY=off GOSUMDB=off CGO_ENABLED=0
-(cd checker && go build -o ../bin/rainlint ./cmd/rainlint) || exit 2
+(cd checker && go build -o ../bin/.rainlint.all ./cmd/rainlint && mv -f ../bin/.rainlint.all ../bin/rainlint) || exit 2
 python3 -c "import json;print('\n'.join(sorted(json.load(open('tools/manifest_src.json'))['checks'])))" | \
   xargs -P "$jobs" -I{} sh -c 'out=$(bin/rainlint -prop {} -tier '"$tier"' 2>&1); rc=$?; echo "{} exit=$rc $(echo "$out" | grep -c KNOWN-FINDING) known | $(echo "$out" | grep "^rainlint" | sed "s/.*obligations=/obligations=/" | cut -c1-110)"; echo "$out" | grep -E "^  (violated|undecided|instance)|BROKEN" | cut -c1-260' | sort
